@@ -26,13 +26,15 @@ Definition read (c : clock) : Z * clock :=
 Inductive ev :=
 | ERead (v : Z)        (* pamiq_core.time.time() returned v *)
 | ECb (i : nat)        (* registered callback i begins *)
-| ERet (b : bool).     (* PeriodicSaveCondition.__call__ returned b *)
+| ERet (b : bool)      (* PeriodicSaveCondition.__call__ returned b *)
+| ERaise.              (* the running callback raised: the exception leaves update() *)
 
 Definition ev_eqb (a b : ev) : bool :=
   match a, b with
   | ERead x, ERead y => Z.eqb x y
   | ECb i, ECb j => Nat.eqb i j
   | ERet x, ERet y => Bool.eqb x y
+  | ERaise, ERaise => true
   | _, _ => false
   end.
 
@@ -68,6 +70,17 @@ Fixpoint run_cbs (cbs : list cb) (c : clock) : list ev * clock :=
               (ECb (cb_id k) :: es1 ++ es2, c2)
   end.
 
+(* the same, but callback [bad] raises as soon as it is entered: nothing after it runs *)
+Fixpoint run_cbs_until (bad : nat) (cbs : list cb) (c : clock) : list ev * clock * bool :=
+  match cbs with
+  | [] => ([], c, true)
+  | k :: r =>
+      if Nat.eqb (cb_id k) bad then ([ECb (cb_id k); ERaise], c, false)
+      else let (es1, c1) := reads_n (cb_reads k) c in
+           let '(es2, c2, ok) := run_cbs_until bad r c1 in
+           (ECb (cb_id k) :: es1 ++ es2, c2, ok)
+  end.
+
 (* ---------- TimeIntervalScheduler ---------- *)
 Record tsched := { ivl : Z; prev : Z; cbs : list cb }.
 
@@ -86,6 +99,17 @@ Definition t_update (strict : bool) (s : tsched) (c : clock) : tsched * list ev 
     let (es, c2) := run_cbs (cbs s) c1 in
     let (t2, c3) := read c2 in
     ({| ivl := ivl s; prev := t2; cbs := cbs s |}, ERead t1 :: es ++ [ERead t2], c3)
+  else (s, [ERead t1], c1).
+
+(* an update during which callback [bad] raises: the exception propagates, the interval is NOT restarted *)
+Definition t_update_raise (strict : bool) (bad : nat) (s : tsched) (c : clock) : tsched * list ev * clock :=
+  let (t1, c1) := read c in
+  if due strict t1 (prev s) (ivl s) then
+    let '(es, c2, ok) := run_cbs_until bad (cbs s) c1 in
+    if ok then
+      let (t2, c3) := read c2 in
+      ({| ivl := ivl s; prev := t2; cbs := cbs s |}, ERead t1 :: es ++ [ERead t2], c3)
+    else (s, ERead t1 :: es, c2)
   else (s, [ERead t1], c1).
 
 (* the tree as pinned (defect D8): the availability test is evaluated twice *)
@@ -113,6 +137,7 @@ Definition s_update (s : ssched) (c : clock) : ssched * list ev * clock :=
 (* ---------- operations on a scheduler object ---------- *)
 Inductive op :=
 | OUpdate
+| OUpdateRaise (bad : nat)    (* update() during which callback [bad], if it is called, raises *)
 | ORegister (k : cb)
 | ORemove (i : nat).
 
@@ -125,6 +150,7 @@ Fixpoint remove_first (i : nat) (l : list cb) : list cb :=
 Definition t_step (orig strict : bool) (s : tsched) (c : clock) (o : op) : tsched * list ev * clock :=
   match o with
   | OUpdate => (if orig then t_update_orig else t_update) strict s c
+  | OUpdateRaise bad => t_update_raise strict bad s c
   | ORegister k => ({| ivl := ivl s; prev := prev s; cbs := cbs s ++ [k] |}, [], c)
   | ORemove i => ({| ivl := ivl s; prev := prev s; cbs := remove_first i (cbs s) |}, [], c)
   end.
@@ -140,7 +166,7 @@ Definition t_trace (orig strict : bool) (i : Z) (l : list cb) (c : clock) (ops :
 
 Definition s_step (s : ssched) (c : clock) (o : op) : ssched * list ev * clock :=
   match o with
-  | OUpdate => s_update s c
+  | OUpdate | OUpdateRaise _ => s_update s c      (* raising callbacks are not modelled for step schedulers *)
   | ORegister k => ({| sivl := sivl s; steps := steps s; scbs := scbs s ++ [k] |}, [], c)
   | ORemove i => ({| sivl := sivl s; steps := steps s; scbs := remove_first i (scbs s) |}, [], c)
   end.
